@@ -90,6 +90,7 @@ Definition op_writes (o : op) : list (tag * name) :=
   | OIface k _ => [(TI, k)]
   | OTypedef k _ => [(TT, k)]
   | OVar k _ _ => [(TV, k)]
+  | OInit ks _ _ => map (fun k => (TV, k)) ks
   | OEnum k _ => [(TE, k)]
   | ODtor s _ => [(TD, s)]
   | OImpl d => map (fun w => (TF, fst w)) (method_binds d)
@@ -102,11 +103,30 @@ Proof.
   induction ws; simpl; [tauto|]. intros. rewrite IHws. split; intros [H|H]; auto; left; congruence.
 Qed.
 
+Lemma in_map_TV : forall (ks : list name) k, In (TV, k) (map (fun k => (TV, k)) ks) <-> In k ks.
+Proof.
+  induction ks; simpl; [tauto|]. intros. rewrite IHks. split; intros [H|H]; auto; left; congruence.
+Qed.
+Lemma init_binds_keys : forall ks c v, map fst (init_binds ks c v) = ks.
+Proof. intros. unfold init_binds. rewrite map_map. simpl. apply map_id. Qed.
+
+(* an initialiser step: it succeeded with some value and bound exactly its keys *)
+Lemma apply_init_ok : forall t ks c e t', apply_op t (OInit ks c e) = Ok t' ->
+  exists v, eval t 0 e = VOk v /\ t' = set_vars t (bind_all (init_binds ks c v) (vars t)).
+Proof.
+  intros t ks c e t' H. simpl in H. destruct (eval t 0 e) as [v|er]; [|discriminate].
+  injection H as <-. eauto.
+Qed.
+
 Lemma apply_frame : forall o t t' g k,
   apply_op t o = Ok t' -> ~ In (g, k) (op_writes o) -> tlookup g k t' = tlookup g k t.
 Proof.
   intros o t t' g k H Hn.
-  destruct o; simpl in H; try enum_case H;
+  destruct (match o with OInit _ _ _ => true | _ => false end) eqn:Eo.
+  { destruct o; try discriminate. destruct (apply_init_ok _ _ _ _ _ H) as [v [_ ->]].
+    destruct g; simpl; try reflexivity. rewrite lookup_bind_all_notin; [reflexivity|].
+    rewrite init_binds_keys. intro Hin. apply Hn. simpl. now apply in_map_TV. }
+  destruct o; try discriminate Eo; simpl in H; try enum_case H;
     try (injection H as <-; destruct g; simpl in *; try reflexivity;
          rewrite lookup_bind_neq; [reflexivity|intro; subst; apply Hn; left; reflexivity]);
     try (injection H as <-; destruct g; reflexivity);
@@ -145,7 +165,12 @@ Proof.
   intros o t t' g k H Hd.
   destruct (in_dec tk_eq_dec (g, k) (op_writes o)) as [Hin|Hni].
   2:{ now rewrite (apply_frame _ _ _ _ _ H Hni). }
-  destruct o; simpl in H, Hin; try tauto;
+  destruct (match o with OInit _ _ _ => true | _ => false end) eqn:Eo.
+  { destruct o; try discriminate. destruct (apply_init_ok _ _ _ _ _ H) as [v [_ ->]].
+    simpl in Hin. apply in_map_iff in Hin. destruct Hin as [k0 [Hk0 Hin]]. injection Hk0 as <- <-.
+    simpl. destruct (lookup_bind_all_in _ (init_binds ks c v) (vars t) k0) as [w ->]; [|discriminate].
+    now rewrite init_binds_keys. }
+  destruct o; try discriminate Eo; simpl in H, Hin; try tauto;
     try (enum_case H; [injection H as <-; destruct Hin as [Hin|[]]; injection Hin as <- <-; simpl; rewrite EL; discriminate|]);
     try (destruct Hin as [Hin|[]]; injection Hin as <- <-; injection H as <-; simpl;
          rewrite lookup_bind_eq; discriminate).
@@ -161,7 +186,12 @@ Lemma apply_defines : forall o t t' g k,
   apply_op t o = Ok t' -> In (g, k) (op_writes o) -> tlookup g k t' <> None.
 Proof.
   intros o t t' g k H Hin.
-  destruct o; simpl in H, Hin; try tauto;
+  destruct (match o with OInit _ _ _ => true | _ => false end) eqn:Eo.
+  { destruct o; try discriminate. destruct (apply_init_ok _ _ _ _ _ H) as [v [_ ->]].
+    simpl in Hin. apply in_map_iff in Hin. destruct Hin as [k0 [Hk0 Hin]]. injection Hk0 as <- <-.
+    simpl. destruct (lookup_bind_all_in _ (init_binds ks c v) (vars t) k0) as [w ->]; [|discriminate].
+    now rewrite init_binds_keys. }
+  destruct o; try discriminate Eo; simpl in H, Hin; try tauto;
     try (enum_case H; [injection H as <-; destruct Hin as [Hin|[]]; injection Hin as <- <-; simpl; rewrite EL; discriminate|]);
     try (destruct Hin as [Hin|[]]; injection Hin as <- <-; injection H as <-; simpl;
          rewrite lookup_bind_eq; discriminate).
@@ -197,8 +227,9 @@ Definition op_loads (o : op) : list name := match o with OLoaded p => [p] | _ =>
 Lemma apply_loaded : forall o t t', apply_op t o = Ok t' -> loaded t' = op_loads o ++ loaded t.
 Proof.
   intros o t t' H. destruct o; simpl in H; try enum_case H; try (injection H as <-; reflexivity); try discriminate.
-  destruct (has_impl _ _ _); [injection H as <-; reflexivity|].
-  destruct (find_conflict _ _); [discriminate|injection H as <-; reflexivity].
+  - destruct (has_impl _ _ _); [injection H as <-; reflexivity|].
+    destruct (find_conflict _ _); [discriminate|injection H as <-; reflexivity].
+  - destruct (eval t 0 e); [injection H as <-; reflexivity|discriminate].
 Qed.
 
 Lemma run_loaded : forall ops t t',
